@@ -120,3 +120,13 @@ pub fn par<T: Send>(n: usize, f: impl Fn(usize) -> T + Sync) -> Vec<T> {
     })
 }
 pub fn proof_clone(p: &SrpProof) -> SrpProof { p.clone() }
+
+/// independent HMAC-SHA1 (RFC 2104) on top of the sha1 crate
+pub fn hmac_sha1(key: &[u8], msg: &[u8]) -> [u8; 20] {
+    let mut k = [0u8; 64];
+    if key.len() > 64 { k[..20].copy_from_slice(&sha(&[key])); } else { k[..key.len()].copy_from_slice(key); }
+    let ipad: Vec<u8> = k.iter().map(|b| b ^ 0x36).collect();
+    let opad: Vec<u8> = k.iter().map(|b| b ^ 0x5c).collect();
+    let inner = sha(&[&ipad, msg]);
+    sha(&[&opad, &inner])
+}
